@@ -771,3 +771,105 @@ func ruleC15SizeCopy(cx *Ctx) {
 	}
 	cx.R.Check(n >= 1, rule, "hashmap", "bucket copier calls found", "-", fmt.Sprintf("%d", n))
 }
+
+// ---------------------------------------------------------------------------------------------------------------
+// C15.srcreadonly: a resize never writes the table it copies from
+// ---------------------------------------------------------------------------------------------------------------
+
+func ruleC15SrcReadOnly(cx *Ctx) {
+	const rule = "C15.srcreadonly"
+	cx.R.Rule(rule, 2, "the bucket copiers of resize only read the source chain: no slot, meta word or link of a source bucket is stored to (lock-free readers and iterations that started before the resize keep using the old table)")
+	n := 0
+	for _, fn := range cx.P.FuncsOfPkg(hmPkg) {
+		if fn.Parent() != nil || !strings.HasPrefix(cname(fn), "copyBucket") {
+			continue
+		}
+		// the source bucket parameter: the *bucketPadded parameter (the destination is a table)
+		var src ssa.Value
+		for _, p := range fn.Params {
+			if namedTypeName(derefType(p.Type())) == "bucketPadded" {
+				src = p
+			}
+		}
+		if src == nil {
+			continue
+		}
+		n++
+		derived := map[ssa.Value]bool{src: true}
+		rootOf := func(v ssa.Value) ssa.Value {
+			for {
+				switch x := v.(type) {
+				case *ssa.FieldAddr:
+					v = x.X
+					continue
+				case *ssa.IndexAddr:
+					v = x.X
+					continue
+				}
+				return v
+			}
+		}
+		for changed := true; changed; {
+			changed = false
+			allInstrs(fn, func(in ssa.Instruction) {
+				v, isV := in.(ssa.Value)
+				if !isV || derived[v] {
+					return
+				}
+				switch x := in.(type) {
+				case *ssa.Phi:
+					for _, e := range x.Edges {
+						if derived[e] {
+							derived[v], changed = true, true
+						}
+					}
+				case *ssa.Call:
+					if isStdMethod(x, "sync/atomic", "", "Load") && derived[rootOf(recvValue(x))] {
+						derived[v], changed = true, true
+					}
+				}
+			})
+		}
+		bad := ""
+		var writes func(f *ssa.Function, d map[ssa.Value]bool, depth int)
+		writes = func(f *ssa.Function, d map[ssa.Value]bool, depth int) {
+			allInstrs(f, func(in ssa.Instruction) {
+				switch x := in.(type) {
+				case *ssa.Store:
+					if d[rootOf(x.Addr)] {
+						bad = "store at " + cx.P.where(in)
+					}
+				case *ssa.Call:
+					cc := x.Common()
+					if c := cc.StaticCallee(); c != nil {
+						name := origin(c).Name()
+						pkg := ""
+						if oc := origin(c); oc.Pkg != nil {
+							pkg = oc.Pkg.Pkg.Path()
+						} else if c.Pkg != nil {
+							pkg = c.Pkg.Pkg.Path()
+						}
+						if pkg == "sync/atomic" && (strings.HasPrefix(name, "Store") || strings.HasPrefix(name, "Swap") || strings.HasPrefix(name, "CompareAndSwap") || strings.HasPrefix(name, "Add")) && len(cc.Args) > 0 && d[rootOf(cc.Args[0])] {
+							bad = "atomic " + name + " at " + cx.P.where(in)
+						}
+						// a helper of the package handed a source bucket: it must not write it either
+						if strings.HasSuffix(pkg, hmPkg) && depth < 2 && len(origin(c).Blocks) > 0 {
+							d2 := map[ssa.Value]bool{}
+							for i, a := range cc.Args {
+								if d[a] && i < len(origin(c).Params) {
+									d2[origin(c).Params[i]] = true
+								}
+							}
+							if len(d2) > 0 {
+								writes(origin(c), d2, depth+1)
+							}
+						}
+					}
+				}
+			})
+		}
+		writes(fn, derived, 0)
+		cx.R.Check(bad == "", rule, funcName(fn), "source chain is only read", cx.P.Pos(fn.Pos()), "the copier writes nothing into the bucket chain it copies from "+bad)
+	}
+	cx.R.Check(n >= 1, rule, "hashmap", "bucket copiers found", "-", fmt.Sprintf("%d", n))
+}
